@@ -79,8 +79,10 @@ func (c *Controller) handleEvent(evt config.Event) {
 	case *config.SvcConfigEvent:
 		c.handleSvcConfigUpdate(evt.Name, evt.Config)
 	case *config.SvcEndpointEvent:
-		c.handleSvcEndpointsAdd(evt.Name, evt.Added)
+		// apply in the same order as the config store did: an address in
+		// both lists was removed and then added again, it must survive.
 		c.handleSvcEndpointsRemove(evt.Name, evt.Removed)
+		c.handleSvcEndpointsAdd(evt.Name, evt.Added)
 	default:
 		logger.Warnf("unkown event: %v", evt)
 	}
